@@ -378,6 +378,18 @@ impl WorldB {
                 Ok(_) => self.deferred.push(("C16".into(), "token-write-read-differs".into(), "roundtrip".into(), format!("id {} addresses {:?}", id, addrs))),
                 Err(e) => self.deferred.push(("C16".into(), "genuine-token-unreadable".into(), "read".into(), format!("{}", e))),
             }
+            // the same bytes through a reader that hands them over in pieces (a socket, a chained buffer) and through a writer
+            // that takes them in pieces: short reads and short writes are legal for io::Read / io::Write
+            let chunk = [1usize, 7, 64, 500, 1000][tag as usize % 5];
+            match ConnectToken::read(&mut ChunkIo { data: bytes.clone(), pos: 0, chunk }) {
+                Ok(t2) if t2 == token => {}
+                Ok(_) => self.deferred.push(("C16".into(), "token-write-read-differs".into(), "short-reads".into(), format!("id {} chunk {}", id, chunk))),
+                Err(e) => self.deferred.push(("C16".into(), "genuine-token-unreadable".into(), "short-reads".into(), format!("chunk {}: {}", chunk, e))),
+            }
+            let mut w = ChunkIo { data: Vec::new(), pos: 0, chunk };
+            if token.write(&mut w).is_err() || w.data != bytes {
+                self.deferred.push(("C16".into(), "token-write-differs".into(), "short-writes".into(), format!("id {} chunk {}", id, chunk)));
+            }
         }
         let listed: Vec<SocketAddr> = token.server_addresses.iter().flatten().copied().collect();
         if listed != addrs {
@@ -522,4 +534,31 @@ pub fn gen_cfg(family: &str, rng: &mut Rng) -> Cfg {
         cfg.set("ud_shared", if rng.chance(1, 4) { 1 } else { 0 });
     }
     cfg
+}
+
+/// An io::Read / io::Write that moves at most `chunk` bytes per call.
+pub struct ChunkIo {
+    pub data: Vec<u8>,
+    pub pos: usize,
+    pub chunk: usize,
+}
+
+impl std::io::Read for ChunkIo {
+    fn read(&mut self, buf: &mut [u8]) -> std::io::Result<usize> {
+        let n = buf.len().min(self.chunk).min(self.data.len() - self.pos);
+        buf[..n].copy_from_slice(&self.data[self.pos..self.pos + n]);
+        self.pos += n;
+        Ok(n)
+    }
+}
+
+impl std::io::Write for ChunkIo {
+    fn write(&mut self, buf: &[u8]) -> std::io::Result<usize> {
+        let n = buf.len().min(self.chunk);
+        self.data.extend_from_slice(&buf[..n]);
+        Ok(n)
+    }
+    fn flush(&mut self) -> std::io::Result<()> {
+        Ok(())
+    }
 }
